@@ -1092,11 +1092,11 @@ def mon_ll(case, out):
 
 
 STREAMS = [
-    Stream("arr", "h_dsa", "driver_dsa", gen_arr, monitor=mon_arr),
-    Stream("ht", "h_dsa", "driver_dsa", gen_ht, monitor=mon_ht),
-    Stream("buf", "h_dsa", "driver_dsa", gen_buf, monitor=mon_buf),
-    Stream("sl", "h_dsa", "driver_dsa", gen_sl, monitor=mon_sl),
-    Stream("ll", "h_dsa", "driver_dsa", gen_ll, monitor=mon_ll),
+    Stream("arr", "h_dsa", "driver_dsa", gen_arr, monitor=mon_arr, timeout=120),
+    Stream("ht", "h_dsa", "driver_dsa", gen_ht, monitor=mon_ht, timeout=120),
+    Stream("buf", "h_dsa", "driver_dsa", gen_buf, monitor=mon_buf, timeout=120),
+    Stream("sl", "h_dsa", "driver_dsa", gen_sl, monitor=mon_sl, timeout=120),
+    Stream("ll", "h_dsa", "driver_dsa", gen_ll, monitor=mon_ll, timeout=120),
 ]
 
 LEVEL_TEXT = ("Proof: Lean 4 refinement theorems, for every operation sequence, that the model of each container "
